@@ -562,6 +562,21 @@ def norm_nested_leaves(spec):
     return out
 
 
+def norm_nested_spec(spec):
+    """independent re-implementation of the documented reading of a nested_fields specification (None / dict of
+    specs / iterable of names) as nested dicts -- the oracles must not borrow the library's own normaliser"""
+    if spec is None:
+        return {}
+    if isinstance(spec, dict):
+        return {k: norm_nested_spec(v) for k, v in spec.items()}
+    return {k: {} for k in spec}
+
+
+def leaf_parent_prefixes(spec):
+    """the dotted parents of the members of a nested_fields specification (what KF5 says the builder uses)"""
+    return sorted({k.rsplit(".", 1)[0] for k in norm_nested_leaves(spec)})
+
+
 def declared_containers(spec, prefix=""):
     """dotted paths of all nested containers declared by a nested_fields spec (any spelling)"""
     out = []
